@@ -3,6 +3,7 @@
 //! on the implementation alone, and writes the annotated cases the Lean model driver replays.
 mod camp;
 mod crash;
+mod damage;
 mod gen;
 mod ops;
 mod real;
